@@ -269,7 +269,9 @@ def check(prop, tier, seed, runs=None, nops=None, workers=None, opts=None):
     distinct = set()
     samples = []
     violations = []          # (result) with replay
+    fingerprints = set()
     for r in results:
+        fingerprints.update((r.get("extra") or {}).get("recompute_fingerprints", []))
         ended[r["ended"]] += 1
         for k, v in r["stats"].items():
             stats[k] += v
@@ -364,6 +366,11 @@ def check(prop, tier, seed, runs=None, nops=None, workers=None, opts=None):
                     "outcomes)",
             "samples": samples or [{"note": "no sample recorded"}],
             "steps_executed": stats.get("ops", 0),
+            "distinct_recomputation_orders": len(fingerprints),
+            "distinct_recomputation_orders_rule": "number of distinct sequences of Class.attribute that the library's real "
+                                                  "ModelingUpdate scheduled for recomputation during this batch (observed by "
+                                                  "a wrapper around ModelingUpdate.recompute_attributes; the 'interleavings "
+                                                  "reached' measure)",
             "runs_per_hour": round(len(results) / wall * 3600) if wall > 0 else 0,
             "run_seeds": f"VERIF_SEED={seed}, run indices 0..{R - 1}, PYTHONHASHSEED per worker = H(seed, property, worker)",
             "workers": W, "ops_per_run": N,
@@ -380,7 +387,8 @@ def check(prop, tier, seed, runs=None, nops=None, workers=None, opts=None):
             "simulated_time": "n/a - the system under test reads no clock",
             "components_real": "all of efootprint (imported from the /repo working tree), pint, pandas, boaviztapi, ecologits",
             "components_stubbed": "uuid.uuid4 as seen by modeling_object/graph_tools (keyed ids); logger silenced; "
-                                  "matplotlib Agg backend",
+                                  "matplotlib Agg backend; observation-only wrapper around ModelingUpdate.recompute_attributes "
+                                  "(records the scheduled recomputation order, then calls the original)",
         },
         "assumptions": [
             "the reference (a system rebuilt from the simulator's spec with the real constructors) shares the library's "
